@@ -8,7 +8,7 @@ ISSUES = ["voteBP", "BPCOUNT", "STAKINGMIN", "GASPRICE", "NAMEPRICE"]
 ERRS = {"ok": "EOk", "init": "EOk", "insufficient": "EInsufficient", "lesstime": "ELessTime", "toosmall": "ETooSmall",
         "muststakevote": "EMustStakeVote", "muststakeunstake": "EMustStakeUnstake", "exceed": "EExceed",
         "payload": "EPayload", "toomany": "ETooMany", "invalidcand": "EInvalidCand",
-        "notsupported": "ENotSupported", "invalidid": "EInvalidId", "panic": "EPanic"}
+        "notsupported": "ENotSupported", "invalidid": "EInvalidId", "toofew": "ETooFew", "panic": "EPanic"}
 DELAY = 86400
 
 
@@ -284,3 +284,119 @@ def vpr_mem_equals_reload(d):
     """consensus-relevant part of votingPowerRank (total power + buckets, what
     pickVotingRewardWinner reads) against loadVpr of the current state"""
     return vpr_view(d["mem"]) == vpr_view(d["reload"])
+
+
+# ============================================================================= names
+NAME_ERRS = {"ok": "NOk", "init": "NOk", "insufficient": "NInsufficient", "toosmall": "NTooSmall",
+             "occupied": "NOccupied", "notowner": "NNotOwner", "notcreated": "NNotCreated"}
+NAME_PRICE = 10 ** 18
+
+
+def gen_name_scenario(rng):
+    nacc = rng.randrange(2, 5)
+    pool = ["abcdefghijkl", "verifname001", "zzzzzzzzzzzz", "n0n0n0n0n0n0"]
+    names = pool[:rng.randrange(1, 4)]
+    ops = []
+    for _ in range(rng.randrange(5, 18)):
+        r = rng.random()
+        s = rng.randrange(nacc)
+        nm = rng.choice(names)
+        spell = nm.upper() if rng.random() < 0.1 else nm     # dbkey.Name lower-cases
+        amt = rng.choice([NAME_PRICE, NAME_PRICE, NAME_PRICE + 5, NAME_PRICE - 1, 0, 2 * NAME_PRICE, 10 ** 30])
+        if r < 0.35:
+            ops.append({"op": "create", "sender": s, "name": spell, "amt": str(amt)})
+        elif r < 0.75:
+            acc = ""
+            if rng.random() < 0.25:
+                acc = spell if rng.random() < 0.6 else rng.choice(names)   # tx.Account = a name
+            ops.append({"op": "update", "sender": s, "account": acc, "name": spell, "dest": rng.randrange(nacc), "amt": str(amt)})
+        else:
+            ops.append({"op": "block"})
+    ops.append({"op": "block"})
+    return {"ver": rng.choice([1, 2, 3]), "accounts": [addr(100 + i).hex() for i in range(nacc)], "bal": str(20 * NAME_PRICE + 7),
+            "names": names, "ops": ops}
+
+
+def name_scenario_to_coq(sc, dumps):
+    aidx = {a: i for i, a in enumerate(sc["accounts"])}
+    nidx = {n: i for i, n in enumerate(sc["names"])}
+
+    def obs(d):
+        e = NAME_ERRS.get(d["err"], "NOk")
+        names = clist("None" if n is None else "(Some (%d%%N,%d%%N))" % (aidx.get(n["o"], 999), aidx.get(n["d"], 999)) for n in d["names"])
+        return "(%s,%s,%s,%s)" % (e, clist(cz(b) for b in d["bals"]), cz(d["namebal"]), names)
+
+    def op(o):
+        if o["op"] == "block":
+            return "NBlock"
+        k = nidx[o["name"].lower()]
+        if o["op"] == "create":
+            return "(NCreate %d%%N %d%%N %s)" % (o["sender"], k, cz(o["amt"]))
+        if o.get("account"):
+            # the account field is a name: equal to the name argument byte for byte, or another name
+            a = "(AName %d%%N)" % (k if o["account"] == o["name"] else 900 + nidx.get(o["account"].lower(), 99))
+        else:
+            a = "(AAddr %d%%N)" % o["sender"]
+        return "(NUpdate %d%%N %s %d%%N %d%%N %s)" % (o["sender"], a, k, o["dest"], cz(o["amt"]))
+
+    d0 = dumps[0]
+    st = "{| n_bal := %s; n_namebal := %s; n_cur := []; n_init := [] |}" % (
+        clist("(%d%%N,%s)" % (i, cz(b)) for i, b in enumerate(d0["bals"])), cz(d0["namebal"]))
+    ops = clist("(%s,%s)" % (op(o), obs(d)) for o, d in zip(sc["ops"], dumps[1:]))
+    return "(%s,(%d%%nat,%d%%nat),%s,\n %s)" % (cz(d0["price"]), len(sc["accounts"]), len(sc["names"]), st, ops)
+
+
+NAME_HEAD = """From Coq Require Import ZArith NArith List Bool.
+From Verif Require Import Gov.Model Gov.Names.
+Import ListNotations.
+Open Scope Z_scope.
+"""
+
+
+def name_cases_file(items):
+    out = [NAME_HEAD]
+    for i, t in enumerate(items):
+        out.append("Definition ns%d : nscenario := %s." % (i, t))
+    out.append("Definition MN := Eval vm_compute in nscenarios_bad %s 0." % clist("ns%d" % i for i in range(len(items))))
+    out.append("Print MN.")
+    return "\n".join(out)
+
+
+def name_predicates(sc, dumps, fails):
+    """one owner per name; created only when free and for >= price; changed only by the
+    owner (or by a tx whose account field is the name); money conserved"""
+    I = int
+    total0 = sum(I(b) for b in dumps[0]["bals"]) + I(dumps[0]["namebal"])
+    for k, o in enumerate(sc["ops"]):
+        pre, post = dumps[k], dumps[k + 1]
+        if sum(I(b) for b in post["bals"]) + I(post["namebal"]) != total0:
+            fails.append(("name tx does not conserve balances", {"scenario": sc, "step": k}))
+        if o["op"] == "block":
+            if pre["names"] != post["names"]:
+                fails.append(("name registry changed at a block boundary", {"scenario": sc, "step": k}))
+            continue
+        ni = sc["names"].index(o["name"].lower())
+        price = I(pre["price"])
+        sender_hex = sc["accounts"][o["sender"]]
+        for j, (a, b) in enumerate(zip(pre["names"], post["names"])):
+            if j != ni and a != b:
+                fails.append(("name tx changed another name", {"scenario": sc, "step": k}))
+        if post["err"] != "ok":
+            if pre["names"] != post["names"] or pre["bals"] != post["bals"]:
+                fails.append(("rejected name tx changed the state", {"scenario": sc, "step": k}))
+            continue
+        if I(o["amt"]) < price:
+            fails.append(("name tx accepted below the name price", {"scenario": sc, "step": k}))
+        if I(post["namebal"]) != I(pre["namebal"]) + I(o["amt"]):
+            fails.append(("name tx did not pay exactly the amount to aergo.name", {"scenario": sc, "step": k}))
+        if o["op"] == "create":
+            if pre["names"][ni] is not None:
+                fails.append(("occupied name created again", {"scenario": sc, "step": k}))
+            if post["names"][ni] != {"o": sender_hex, "d": sender_hex}:
+                fails.append(("created name not bound to its creator", {"scenario": sc, "step": k}))
+        if o["op"] == "update":
+            owner = pre["names"][ni]["o"] if pre["names"][ni] else None
+            by_name = o.get("account") and o["account"] == o["name"]
+            acct_hex = None if o.get("account") else sender_hex
+            if not by_name and (owner is None or acct_hex != owner):
+                fails.append(("name updated by someone who is not the owner", {"scenario": sc, "step": k}))
